@@ -1,6 +1,6 @@
 (** C13 - an I/O failure on one piece is confined to that piece.  Statements only. *)
 From TB Require Import Base Decimal BencodeModel TorrentModel TorrentProofs PathModel FsModel SolverModel FinderModel RunModel
-                       SolverProofs RunProofs FsProofs FaultProofs PreludeProofs TableProofs Generated GeneratedObligations.
+                       SolverProofs RunProofs FsProofs FaultProofs PreludeProofs TableProofs Generated GeneratedObligations SystemModel SystemProofs GlueProofs RunExample.
 Local Open Scope N_scope.
 
 (** For every piece and with no hypothesis at all: any I/O error answer (a candidate that cannot
@@ -24,7 +24,16 @@ Proof. exact (solve_prog_good H content pc). Qed.
 Theorem C13_fault_counted c : count c Fault = {| c_success := c_success c; c_failed := c_failed c; c_fault := S (c_fault c); c_total := c_total c |}.
 Proof. reflexivity. Qed.
 
+(** WHOLE RUN: after any number of I/O failures anywhere (every [ss_mut_fail] / failed read step),
+    every program still in the pool - the pieces other workers are evaluating, and the faulted
+    piece's own remainder - is still good: the failure changed nothing for the others. *)
+Theorem C13_whole_run_other_pieces_unaffected H content export ts ix es ws f0 pool0 s pg :
+  run_setup H content export ts ix es ws f0 pool0 -> sreach {| s_fs := f0; s_pool := pool0 |} s ->
+  In pg (s_pool s) -> pgood content es pg.
+Proof. exact (whole_run_pool_good H content export ts ix es ws f0 pool0 s pg). Qed.
+
 Print Assumptions C13_fault_ends_the_piece.
 Print Assumptions C13_no_lock_leaked.
 Print Assumptions C13_ops_before_fault_good.
 Print Assumptions C13_fault_counted.
+Print Assumptions C13_whole_run_other_pieces_unaffected.
